@@ -332,7 +332,19 @@ def _gen_run(arg):
         drop = names[int(rng.integers(0, len(names)))]
         lines = (wd / "out.gro").read_text().splitlines()
         keep = [ln for ln in lines[2:-1] if ln[5:10].strip() != drop]
-        if keep and len(keep) < len(lines) - 3:
+        # polyply requires supplied residue centres inside the box: a residue placed at the boundary in stage 1 can have its
+        # centre of the 3-decimal coordinates marginally outside -> such a stage 2 would be an out-of-domain input, skip it
+        inside = True
+        at = 0
+        for _, _, rn, ans in res:
+            if rn == drop:
+                continue
+            pts = [[float(ln[20:28]), float(ln[28:36]), float(ln[36:44])] for ln in keep[at:at + len(ans)]]
+            at += len(ans)
+            cog = np.mean(np.array(pts), axis=0) if pts else np.array([-1.0] * 3)
+            inside = inside and bool(np.all(cog > 0.02) and np.all(cog < box - 0.02))
+        out["stage2_skipped_boundary"] = not inside
+        if inside and keep and len(keep) < len(lines) - 3:
             (wd / "part.gro").write_text("\n".join([lines[0], "%5d" % len(keep)] + keep + [lines[-1]]) + "\n")
             rec = Recorder(fudge)
             try:
@@ -421,7 +433,7 @@ def run(tier):
     quick = tier == "quick"
     tu.import_polyply_quietly()
     ck.stage("TLC: model, deviations, exports (concurrently)")
-    nsim = 60 if quick else 600
+    nsim = 60 if quick else 1500
     jobs = [("BmRotLaws", "Backmap_small.cfg" if quick else "Backmap_full.cfg", {"workers": max(2, c.NPROC // 2), "timeout": 3000}),
             ("BmExport", "Bm_export1.cfg", {"workers": 1}),
             ("BmExport", "Bm_export2.cfg", {"workers": 2}),
@@ -453,7 +465,7 @@ def run(tier):
     ck.nontrivial = {k for k in ck.nontrivial if _nontrivial(json.loads(k))}
 
     ck.stage("I->S: real gen_coords runs (real optimiser)")
-    nruns = 36 if quick else 240
+    nruns = 36 if quick else 480
     kinds = ["walk", "meta", "partial"]
     wd = c.workdir("C06", "runs")
     items = [(sd * 1000 + i, kinds[i % 3], str(wd / ("r%d" % i))) for i in range(nruns)]
@@ -475,7 +487,7 @@ def run(tier):
         raise c.MachineryError("%d of %d gen_coords runs timed out" % (timeouts, nruns))
     if not traces:
         raise c.MachineryError("no Backmap trace recorded")
-    rots = rotation_samples(np.random.default_rng(sd + 5), 300 if quick else 3000)
+    rots = rotation_samples(np.random.default_rng(sd + 5), 300 if quick else 6000)
     rejected, badrot = validate(ck, traces, rots, "traces")
     ck.traces += len(traces) - len(rejected)
     stats = {"place": 0, "skip": 0, "chiral": 0, "neigh": {}, "built_neigh": 0, "stage2": 0}
